@@ -12,7 +12,7 @@ THEOREMS = ['C10.gen_sources', 'C10.bestPerDeme_is_best', 'C10.filter_shrinks', 
 LEVEL = 'proof'
 LEVEL_TEXT = 'Theorems for all views, candidate sets, limits, directions and filter compositions: candidates come from non-leaf demes of the tree; BestPerDeme proposes exactly the current best of an active deme; every filter and every chain only removes candidates (sub-multiset per parent); DemeLimit keeps exactly min(limit, n) and no dropped candidate is strictly better than a kept one; LevelLimit keeps exactly the candidates strictly better than the cut-off, at most the free slots, nothing is cut when there is room; SkipSameSprout lets a candidate through iff it is not isclose to an existing seed of the target level. Tie: every stage of every real sprouting round is recomputed by the model and diffed; direct monitor. NEW (run level): C10_created_from_generator — every deme created by a sprouting round has as parent a deme of the view on a non-leaf level and as seed one of the individuals the generator proposed for that parent (filters only remove); C10_created_best_per_deme — with the best-per-deme generator the seed is a member of the parent current population at least as good as every member, and the parent is active. NEW: MahalanobisFarEnough is the sixth filter of the model (its in-extension verdicts are environment): filter_shrinks covers it, mahalanobis_iff says a candidate survives iff no deme of the target level reports it inside its extension; refined against real runs with CMA-ES children.'
 LEVEL_NOTE = 'Trusted: Lean kernel + standard axioms; the hand-written tree / sprout model is tied to the code by trace refinement on sampled runs (every run is re-executed by the model; dumps and the output of every stage of the sprout mechanism are diffed); numerical engines, objective values, NumPy distances and user-defined stop-condition verdicts are environment; monitors trusted as failing-input search. LevelLimit fills exactly the free slots under distinct fitness is checked by the monitor and by refinement, stated as two theorems (at most the free slots; no cut when there is room) rather than as an equality.'
-TECHNIQUE = "trace refinement against the Lean tree model (Tree.step re-executes real runs) + direct monitors"
+TECHNIQUE = "Lean 4 theorems (inductive invariants of the tree machine Tree.step, proved for all configurations and event sequences) tied to the code by trace refinement (Tree.step re-executes real runs; engine generations replayed bit-exactly by the engine model) + direct monitors as failing-input search"
 RULE = "case = one traced run of a random configuration (1-3 levels, engine per level from the full list, every shipped GSC/LSC kind plus user-defined ones, both stock sprout mechanisms and user-composed chains, hibernation on/off, both directions, decimal boxes, optional cutoff/precision/stats wrappers, shared or per-level problems); non-trivial = run with >= 2 demes and >= 2 metaepochs; distinct by configuration hash"
 ASSUMPTIONS = ["objective is deterministic and never returns NaN", "runs are capped at 12 metaepochs by a user-level composite stop condition"]
 FORCE = None
